@@ -51,6 +51,22 @@ func CheckOne(s *vals.Spec) (key, msg string) {
 	if !bytes.Equal(out2.ToByteArray(), got) {
 		return typeName(s.T) + ":reencode", fmt.Sprintf("%s: re-encoding the decoded value gives different bytes", s.String())
 	}
+	// the typed helpers the packs use for their tag and attribute maps must agree with the generic pair
+	if mv, ok := v.(*value.MapValue); ok {
+		out3 := gio.NewDataOutputX()
+		value.WriteMapValue(out3, mv)
+		if !bytes.Equal(out3.ToByteArray(), ref) {
+			return typeName(s.T) + ":WriteMapValue", fmt.Sprintf("%s: WriteMapValue emitted %x…, the reference encoding is %x…", s.String(), clip(out3.ToByteArray()), clip(ref))
+		}
+		in3 := gio.NewDataInputX(append([]byte{}, ref...))
+		dm := value.ReadMapValue(in3)
+		if dm == nil || in3.Available() != 0 {
+			return typeName(s.T) + ":ReadMapValue", fmt.Sprintf("%s: ReadMapValue returned %v with %d bytes left", s.String(), dm, in3.Available())
+		}
+		if m := vals.Same(s, dm, "$"); m != "" {
+			return typeName(s.T) + ":ReadMapValue", fmt.Sprintf("%s: ReadMapValue gives a different map: %s", s.String(), m)
+		}
+	}
 	return "", ""
 }
 
